@@ -18,6 +18,7 @@ import (
 	"math/rand"
 	"os"
 	"sort"
+	"strings"
 	"sync"
 	"sync/atomic"
 	"time"
@@ -135,6 +136,7 @@ func main() {
 	r.FloorCount("scenarios_converged", int64(r.Pick(5, 40)))
 	r.FloorCount("snapshot_recoveries_observed", int64(r.Pick(2, 12)))
 	r.FloorCount("table_set_convergence_checks", int64(r.Pick(2, 8)))
+	r.FloorCount("messages_ending_with_raft_internal_entry_behind_data_followed_by_more_in_stream", int64(r.Pick(3, 20)))
 	r.Finish()
 }
 
@@ -268,6 +270,11 @@ func writer(e *storage.Engine, table string, seed int64, lg *leaderLog, stop *at
 func runScenario(r *ev.Run, id caseID) {
 	g := rand.New(rand.NewSource(id.Seed))
 	maxMsg := []uint64{300, 1024, 4 << 20}[g.Intn(3)]
+	if id.Scenario == "log" {
+		// the log scenario is about message boundaries: several small entries per message (one
+		// entry alone counts ~150 B), the 2.6-4 KiB values never fit behind another entry
+		maxMsg = []uint64{700, 1024, 2048}[g.Intn(3)]
+	}
 	inMem := []uint64{0, 1 << 20, 6 << 20, 1 << 20}[g.Intn(4)] // must exceed the worker's 256 KiB proposals
 	logCache := []int{0, 0, 16, 1024}[g.Intn(4)]
 	// the leader compacts its log aggressively only in the scenarios that are about snapshot recovery
@@ -413,6 +420,65 @@ func runScenario(r *ev.Run, id caseID) {
 	case "log", "tables":
 		pace = 4 // spread the writes so that the sampler sees many distinct leader indices
 		startWriters(2, 260)
+		var injStop atomic.Bool
+		injWait := make(chan struct{})
+		if id.Scenario != "log" {
+			close(injWait)
+		}
+		if id.Scenario == "log" {
+			// Raft-internal entries in the middle of the leader's log (membership changes: a
+			// non-voting member that never joins is added to the table shard every ~100 ms); the
+			// leader streams them as DUMMY commands
+			ig := rand.New(rand.NewSource(id.Seed ^ 0x51ed))
+			go func() {
+				defer close(injWait)
+				g := ig
+				for i := 0; i < 12 && !stop.Load() && !injStop.Load(); i++ {
+					time.Sleep(time.Duration(60+g.Intn(80)) * time.Millisecond)
+					for _, t := range tables {
+						at, err := le.GetTable(t)
+						if err != nil {
+							continue
+						}
+						ctx, cancel := context.WithTimeout(context.Background(), 3*time.Second)
+						if m, err := le.SyncGetShardMembership(ctx, at.ClusterID); err == nil {
+							// a key of its own, written once, directly in front of the Raft-internal entry
+							put := func(key string, val []byte) {
+								if resp, err := le.Put(ctx, &pb.PutRequest{Table: []byte(t), Key: []byte(key), Value: val}); err == nil {
+									cmd := &pb.Command{Table: []byte(t), Type: pb.Command_PUT, Kv: &pb.KeyValue{Key: []byte(key), Value: val}}
+									lg.add(t, write{rev: resp.Header.Revision, cmd: cmd, desc: fmt.Sprintf("%d:%s", resp.Header.Revision, gen.Describe(cmd))})
+								} else {
+									lg.failed.Store(true)
+									lg.why.Store(err.Error())
+								}
+							}
+							// every second burst happens while the follower's replication is paused, so that
+							// the whole burst reaches it in one stream
+							paused := i%2 == 1
+							if paused {
+								f.StopManager(0)
+							}
+							put(fmt.Sprintf("before-membership-change-%d-%s", i, strings.Repeat("k", g.Intn(40))), []byte("x"))
+							if le.SyncRequestAddNonVoting(ctx, at.ClusterID, uint64(90+i), fmt.Sprintf("127.0.0.1:%d", 1+i), m.ConfigChangeID) == nil {
+								r.Count("raft_internal_entries_injected_mid_log", 1)
+								// followed at once by a write larger than the small message-size limits, so that
+								// a replication message ends right behind the Raft-internal entry
+								val := append([]byte(fmt.Sprintf("after-membership-change-%d|", i)), make([]byte, 2600+g.Intn(1500))...)
+								put("f", val)
+								put(fmt.Sprintf("after-membership-change-%d", i), []byte("y"))
+							}
+							if paused {
+								if err := f.StartManager(0); err != nil {
+									lg.failed.Store(true)
+									lg.why.Store("manager restart: " + err.Error())
+								}
+							}
+						}
+						cancel()
+					}
+				}
+			}()
+		}
 		if id.Scenario == "tables" {
 			// tables created and deleted on the leader while replication runs
 			time.Sleep(200 * time.Millisecond)
@@ -421,6 +487,8 @@ func runScenario(r *ev.Run, id caseID) {
 			}
 		}
 		wg.Wait()
+		injStop.Store(true)
+		<-injWait
 	case "snapshot":
 		// nothing more: the follower must recover from a snapshot and then tail
 		startWriters(1, 25)
@@ -662,6 +730,8 @@ func runScenario(r *ev.Run, id caseID) {
 	r.Count("replicate_calls", st.ReplicateCalls.Load())
 	r.Count("replicated_commands", st.Commands.Load())
 	r.Count("use_snapshot_answers", st.UseSnapshot.Load())
+	r.Count("messages_ending_with_raft_internal_entry_behind_data", st.DummyTail.Load())
+	r.Count("messages_ending_with_raft_internal_entry_behind_data_followed_by_more_in_stream", st.DummyTailThenMore.Load())
 	r.Count("snapshot_recoveries_observed", st.SnapshotStreams.Load())
 	if (id.Scenario == "snapshot" || id.Scenario == "writes-during-recovery") && st.SnapshotStreams.Load() == 0 {
 		r.Inconclusive(fmt.Sprintf("[%s] no snapshot stream was observed (the leader log was not compacted in time)", id.Scenario))
